@@ -21,7 +21,7 @@ import (
 	"github.com/tigerwill90/fox/clientip"
 )
 
-const rule = "cases = (read entry point x stage at which a write transaction is parked x router option set x repetition); the product entry x stage x option set is enumerated completely; " +
+const rule = "cases = (read entry point x stage at which a write transaction is parked x router option set x repetition); the product entry x stage x option set is enumerated completely; entries include handles taken before a commit replaced the tree, a chain of 32 nested nodes, and a snapshot of the parked transaction (deeper chain, more parameters than any published route) handed over to the reader; " +
 	"distinct by (entry, stage, option set); non-trivial always (a writer really holds the lock: verified by a concurrent write attempt that must NOT complete while parked)"
 
 var stages = []string{"just-opened", "after-writes", "inside-Updates", "with-snapshot-and-iter", "at-txn.afterLock", "at-commit.beforeStore", "at-commit.afterStore"}
@@ -364,7 +364,7 @@ func main() {
 	if run.Mode() == "gomaxprocs1" {
 		runtime.GOMAXPROCS(1)
 	}
-	reps := run.Pick(50, 200)
+	reps := run.Pick(50, 5000)
 	ents := append(append(entries(), staleEntries()...), handedEntries()...)
 	proven := map[string]bool{} // entry points already shown to block: not re-tested (each costs a full watchdog)
 	for _, cfg := range configs {
